@@ -1443,8 +1443,13 @@ class Tensor(object):
                         cores[-1] = torch.einsum(
                             "iaj,jk->iak", (cores[-1], factors["int"])
                         )
-            else:  # We return a scalar
-                if not self.batch and factors["int"].numel() > 1:
+            else:  # We return a scalar (one per selected batch element)
+                if self.batch:  # Close the pending bond of each batch element
+                    res = factors["int"].reshape(factors["int"].shape[0], -1).sum(dim=1)
+                    if isinstance(batch_dim_idx, (int, np.integer)):
+                        return res[0]
+                    return res
+                if factors["int"].numel() > 1:
                     return torch.sum(factors["int"])
                 return torch.squeeze(factors["int"])
 
